@@ -15,6 +15,7 @@ Lib == ("i" :> S2B("<{{ x }}|{{ y }}>")) @@ ("e" :> S2B("E[{% block eb %}d{{ x }
        @@ ("base2" :> S2B("{% block sidebar %}base-sidebar{% endblock %}/{% block box %}base-box{% endblock %}/{% block main %}{% endblock %}"))
        @@ ("mid2" :> S2B("{% extends 'base2' %}{% block sidebar %}mid({{ parent() }}){% endblock %}"))
        @@ ("up" :> S2B("{% block box %}[box:{{ parent() }}]{% endblock %}"))
+       @@ ("lib2" :> S2B("{% macro j(items, sep, acc) %}{% for i in items %}{% set acc = acc ~ i ~ sep %}{% endfor %}[{{ acc }}]{% endmacro %}"))
 Ctx == ("x" :> Str(S2B("q"))) @@ ("y" :> IntV(2)) @@ ("h" :> Hash(<< <<S2B("x"), IntV(7)>> >>)) @@ ("t" :> Bool(TRUE)) @@ ("name" :> Str(S2B("i")))
        @@ ("arr" :> Arr(<<IntV(1), IntV(2), IntV(3)>>))
 
@@ -55,6 +56,11 @@ Sources == <<
   C("C06", "{% if '' %}A{% elseif 'a' %}B{% endif %}|{% if null %}A{% elseif false %}B{% elseif true %}C{% endif %}|{% if (0.0) %}A{% elseif 1 %}B{% endif %}"),
   C("C06", "{% if 0.25 %}A{% endif %}{% if 1.0 %}B{% endif %}{% if 0.50 %}C{% endif %}{% if 10 %}D{% endif %}"),
   C("C06", "{% for v in arr if 0.0 %}{{ v }}{% else %}E{% endfor %}{% for v in arr if 1 %}{{ v }}{% endfor %}{{ 0.0 ? 'a' : 'b' }}{{ 00 ? 'a' : 'b' }}"),
+  (* a name bound to null is bound: an assignment from a nested scope updates it (a parameter left out or passed as null, a
+     variable set to null) *)
+  C("C11", "{% macro j(items, sep, acc) %}{% for i in items %}{% set acc = acc ~ i ~ sep %}{% endfor %}[{{ acc }}]{% endmacro %}{{ _self.j([1, 2, 3], ',') }}{{ _self.j([1, 2], ';', null) }}{{ _self.j([1], ',', '') }}"),
+  C("C11", "{% from 'lib2' import j %}{{ j([1, 2], '+') }}{% import 'lib2' as L %}{{ L.j([3], '-', null) }}{% for q in [1, 2] %}{{ j([q], '.') }}{% endfor %}"),
+  C("C07", "{% set a = null %}{% for v in arr %}{% set a = a ~ v %}{% endfor %}[{{ a }}]{% set b = null %}{% if t %}{% for v in arr %}{% set b = v %}{% endfor %}{% endif %}[{{ b }}]"),
   (* a block reached by block(alias): parent() inside it climbs the chain of the name it was reached by *)
   C("C09", "{% extends 'base2' %}{% use 'up' with box as sidebar %}{% block main %}{{ block('sidebar') }}{% endblock %}"),
   C("C09", "{% extends 'base2' %}{% use 'up' with box as sidebar %}"),
